@@ -153,4 +153,311 @@ Section HistProofs.
     destruct o as [g|]; simpl; intros Hl Hz; [right | left; reflexivity].
     rewrite (all_zero_vzero g Hz), Hl. reflexivity.
   Qed.
+
+  (* ------------------------------------------------------------------ congruence of the reverse sweep *)
+  Definition mod_ext (m1 m2 : module K) : Prop :=
+    m_ins m1 = m_ins m2 /\ m_outs m1 = m_outs m2 /\ forall ws, m_adj m1 ws = m_adj m2 ws.
+
+  Lemma add_sens_congr d1 d2 (c1 c2 : cenv K) r d x :
+    (forall s, d1 s = d2 s) -> c1 x = c2 x -> add_sens d1 c1 r d x = add_sens d2 c2 r d x.
+  Proof.
+    intros Hd E. destruct (Nat.eq_dec x (ref_sig r)) as [->|Hn].
+    - destruct d as [d|]; [|exact E].
+      destruct r as [s|s idx|s idx]; simpl in *.
+      + rewrite E. destruct (c2 s); rewrite !upd_same; reflexivity.
+      + rewrite E, (Hd s). rewrite !upd_same. reflexivity.
+      + rewrite E, (Hd s). rewrite !upd_same. reflexivity.
+    - rewrite !add_sens_other by exact Hn. exact E.
+  Qed.
+
+  Lemma add_all_congr d1 d2 rds : forall (c1 c2 : cenv K) x,
+    (forall s, d1 s = d2 s) -> c1 x = c2 x -> add_all d1 rds c1 x = add_all d2 rds c2 x.
+  Proof.
+    induction rds as [|rd rds IH]; intros c1 c2 x Hd E; [exact E|].
+    simpl. apply IH; [exact Hd|]. apply add_sens_congr; assumption.
+  Qed.
+
+  Lemma fill_congr d1 d2 outs (ws : list (option (vec K))) :
+    (forall s, d1 s = d2 s) -> fill d1 outs ws = fill d2 outs ws.
+  Proof. intros Hd. unfold fill. apply map_ext. intros [o [g|]]; simpl; [reflexivity | rewrite (Hd o); reflexivity]. Qed.
+
+  Lemma bwd_mod_congr d1 d2 m1 m2 (c1 c2 : cenv K) :
+    (forall s, d1 s = d2 s) -> mod_ext m1 m2 -> (forall s, c1 s = c2 s) ->
+    forall x, bwd_mod d1 m1 c1 x = bwd_mod d2 m2 c2 x.
+  Proof.
+    intros Hd [Ei [Eo Ea]] Ec x. unfold bwd_mod, skip, apply_adj.
+    rewrite Ei, Eo, (map_ext c1 c2 Ec), (fill_congr d1 d2 _ _ Hd), Ea.
+    destruct (negb (is_nil (m_outs m2)) && forallb is_none (map c2 (m_outs m2))); [apply Ec|].
+    apply add_all_congr; [exact Hd | apply Ec].
+  Qed.
+
+  Lemma bwd_congr d1 d2 ms1 ms2 : (forall s, d1 s = d2 s) -> Forall2 mod_ext ms1 ms2 ->
+    forall (c1 c2 : cenv K), (forall s, c1 s = c2 s) -> forall x, bwd d1 ms1 c1 x = bwd d2 ms2 c2 x.
+  Proof.
+    intros Hd HF. induction HF as [|m1 m2 ms1 ms2 Hm _ IH]; intros c1 c2 Ec x; [apply Ec|].
+    rewrite !bwd_cons. apply bwd_mod_congr; auto.
+  Qed.
+
+  (* ------------------------------------------------------------------ None = zero array *)
+  Variable dims : nat -> nat.
+
+  Definition rel (o1 o2 : option (vec K)) (n : nat) : Prop := o1 = o2 \/ (zeroish n o1 /\ zeroish n o2).
+
+  Lemma rel_sym o1 o2 n : rel o1 o2 n -> rel o2 o1 n.
+  Proof. intros [E|[A B]]; [left; symmetry; exact E | right; split; assumption]. Qed.
+
+  Lemma ceq_rel (c1 c2 : cenv K) : ceq dims c1 c2 <-> forall s, rel (c1 s) (c2 s) (dims s).
+  Proof. unfold ceq, rel. tauto. Qed.
+
+  (* the adjoint is shape-correct and sends zero seeds to zero (or None) results: linearity in the seed, C04 *)
+  Definition adj_shaped (m : module K) : Prop :=
+    forallb (wt_ref dims) (m_ins m) = true /\
+    forall ws, shapes ws (map dims (m_outs m)) -> oshapes (m_adj m ws) (map (ref_dim dims) (m_ins m)).
+  Definition zero_preserving (m : module K) : Prop :=
+    Forall2 (fun d n => zeroish n d) (m_adj m (map (fun o => vzero (dims o)) (m_outs m)))
+            (map (ref_dim dims) (m_ins m)).
+
+  Lemma zeroish_dshape (d : option (vec K)) n : zeroish n d -> dshape d n.
+  Proof. intros [-> | ->] g; [discriminate | intros [= <-]; apply length_vzero]. Qed.
+
+  (* adding the same contribution on both sides *)
+  Lemma add_sens_rel_same (c1 c2 : cenv K) r d x :
+    wt_ref dims r = true -> dshape d (ref_dim dims r) ->
+    rel (c1 x) (c2 x) (dims x) -> rel (add_sens dims c1 r d x) (add_sens dims c2 r d x) (dims x).
+  Proof.
+    intros Hr Hd H. destruct (Nat.eq_dec x (ref_sig r)) as [->|Hn]; [|rewrite !add_sens_other by exact Hn; exact H].
+    destruct H as [E|[Z1 Z2]]; [left; apply add_sens_pointwise; exact E|].
+    destruct d as [d|]; [|right; split; assumption].
+    specialize (Hd d eq_refl). left.
+    destruct r as [s|s idx|s idx]; simpl in *; [| |discriminate].
+    - destruct Z1 as [-> | ->], Z2 as [-> | ->]; rewrite !upd_same; rewrite ?vadd_zero_l by exact Hd; reflexivity.
+    - destruct Z1 as [-> | ->], Z2 as [-> | ->]; rewrite !upd_same; reflexivity.
+  Qed.
+
+  (* adding a zero contribution on one side only *)
+  Lemma add_sens_rel_zero (c1 c2 : cenv K) r d x :
+    wt_cot dims c1 -> wt_ref dims r = true -> zeroish (ref_dim dims r) d ->
+    rel (c1 x) (c2 x) (dims x) -> rel (add_sens dims c1 r d x) (c2 x) (dims x).
+  Proof.
+    intros Hc Hr Hd H. destruct (Nat.eq_dec x (ref_sig r)) as [->|Hn]; [|rewrite add_sens_other by exact Hn; exact H].
+    destruct Hd as [-> | ->]; [exact H|].
+    destruct r as [s|s idx|s idx]; simpl in *; [| |discriminate].
+    - destruct (c1 s) as [g|] eqn:E; rewrite upd_same.
+      + rewrite vadd_zero_r by (apply (Hc s g E)). exact H.
+      + destruct H as [E2|[_ Z2]].
+        * right. split; [right; reflexivity | rewrite <- E2; left; reflexivity].
+        * right. split; [right; reflexivity | exact Z2].
+    - rewrite upd_same. rewrite slice_add_zero.
+      destruct (c1 s) as [g|] eqn:E; [exact H|].
+      destruct H as [E2|[_ Z2]].
+      + right. split; [right; reflexivity | rewrite <- E2; left; reflexivity].
+      + right. split; [right; reflexivity | exact Z2].
+  Qed.
+
+  Lemma add_all_rel_same : forall ins ds (c1 c2 : cenv K),
+    oshapes ds (map (ref_dim dims) ins) -> forallb (wt_ref dims) ins = true ->
+    (forall x, rel (c1 x) (c2 x) (dims x)) ->
+    forall x, rel (add_all dims (combine ins ds) c1 x) (add_all dims (combine ins ds) c2 x) (dims x).
+  Proof.
+    induction ins as [|r ins IH]; intros ds c1 c2 Hs Hw H x; [apply H|].
+    inversion Hs as [|d n ds' ns Hd Hs']; subst.
+    simpl in Hw. apply andb_true_iff in Hw as [Hr Hw].
+    change (add_all dims (combine (r :: ins) (d :: ds')) c1) with (add_all dims (combine ins ds') (add_sens dims c1 r d)).
+    change (add_all dims (combine (r :: ins) (d :: ds')) c2) with (add_all dims (combine ins ds') (add_sens dims c2 r d)).
+    apply IH; auto. intros y. apply add_sens_rel_same; auto.
+  Qed.
+
+  Lemma add_all_rel_zero : forall ins ds (c1 c2 : cenv K),
+    Forall2 (fun d n => zeroish n d) ds (map (ref_dim dims) ins) -> forallb (wt_ref dims) ins = true ->
+    wt_cot dims c1 -> (forall x, rel (c1 x) (c2 x) (dims x)) ->
+    forall x, rel (add_all dims (combine ins ds) c1 x) (c2 x) (dims x).
+  Proof.
+    induction ins as [|r ins IH]; intros ds c1 c2 Hs Hw Hc H x; [apply H|].
+    inversion Hs as [|d n ds' ns Hd Hs']; subst.
+    simpl in Hw. apply andb_true_iff in Hw as [Hr Hw].
+    change (add_all dims (combine (r :: ins) (d :: ds')) c1) with (add_all dims (combine ins ds') (add_sens dims c1 r d)).
+    apply IH; auto.
+    - apply add_sens_wt; auto. apply zeroish_dshape. exact Hd.
+    - intros y. apply add_sens_rel_zero; auto.
+  Qed.
+
+  Lemma fill_rel outs : forall (c1 c2 : cenv K), (forall o, rel (c1 o) (c2 o) (dims o)) ->
+    fill dims outs (map c1 outs) = fill dims outs (map c2 outs).
+  Proof.
+    intros c1 c2 H. unfold fill. induction outs as [|o outs IH]; [reflexivity|].
+    simpl. rewrite IH. f_equal.
+    destruct (H o) as [->|[[-> | ->] [-> | ->]]]; reflexivity.
+  Qed.
+
+  Lemma fill_all_zeroish outs : forall (c : cenv K), (forall o, In o outs -> zeroish (dims o) (c o)) ->
+    fill dims outs (map c outs) = map (fun o => vzero (dims o)) outs.
+  Proof.
+    intros c H. unfold fill. induction outs as [|o outs IH]; [reflexivity|].
+    simpl. rewrite IH by (intros; apply H; right; assumption). f_equal.
+    destruct (H o (or_introl eq_refl)) as [-> | ->]; reflexivity.
+  Qed.
+
+  Lemma all_none_zeroish outs (c1 c2 : cenv K) :
+    forallb is_none (map c1 outs) = true -> (forall o, rel (c1 o) (c2 o) (dims o)) ->
+    forall o, In o outs -> zeroish (dims o) (c2 o).
+  Proof.
+    intros Hb H o Ho. rewrite forallb_forall in Hb.
+    assert (E : c1 o = None).
+    { specialize (Hb (c1 o) (in_map c1 outs o Ho)). destruct (c1 o); [discriminate | reflexivity]. }
+    destruct (H o) as [E2|[_ Z]]; [rewrite <- E2, E; left; reflexivity | exact Z].
+  Qed.
+
+  Lemma apply_adj_wt m ws (c : cenv K) : adj_shaped m -> shapes (fill dims (m_outs m) ws) (map dims (m_outs m)) ->
+    wt_cot dims c -> wt_cot dims (apply_adj dims m ws c).
+  Proof.
+    intros [Hw Ha] Hs Hc. unfold apply_adj. apply (add_all_wt dims); auto.
+  Qed.
+
+  Lemma bwd_mod_wt m (c : cenv K) : adj_shaped m -> wt_cot dims c -> wt_cot dims (bwd_mod dims m c).
+  Proof.
+    intros Hm Hc. unfold bwd_mod. destruct (skip m _); [exact Hc|].
+    apply apply_adj_wt; auto. apply fill_shapes. exact Hc.
+  Qed.
+
+  Lemma bwd_mod_rel m (c1 c2 : cenv K) :
+    adj_shaped m -> zero_preserving m -> wt_cot dims c1 -> wt_cot dims c2 ->
+    (forall x, rel (c1 x) (c2 x) (dims x)) ->
+    forall x, rel (bwd_mod dims m c1 x) (bwd_mod dims m c2 x) (dims x).
+  Proof.
+    intros Hm Hz W1 W2 H x. pose proof Hm as [Hw Ha]. unfold bwd_mod, skip.
+    destruct (negb (is_nil (m_outs m)) && forallb is_none (map c1 (m_outs m))) eqn:S1;
+      destruct (negb (is_nil (m_outs m)) && forallb is_none (map c2 (m_outs m))) eqn:S2.
+    - apply H.
+    - apply andb_true_iff in S1 as [_ S1]. apply rel_sym. unfold apply_adj.
+      rewrite (fill_all_zeroish _ c2 (all_none_zeroish _ c1 c2 S1 H)).
+      apply add_all_rel_zero; auto. intros y. apply rel_sym. apply H.
+    - apply andb_true_iff in S2 as [_ S2]. unfold apply_adj.
+      rewrite (fill_all_zeroish _ c1 (all_none_zeroish _ c2 c1 S2 (fun o => rel_sym _ _ _ (H o)))).
+      apply add_all_rel_zero; auto.
+    - unfold apply_adj. rewrite (fill_rel _ c1 c2 H).
+      apply add_all_rel_same; auto. apply Ha. apply fill_shapes. exact W2.
+  Qed.
+
+  Lemma bwd_rel ms : Forall adj_shaped ms -> Forall zero_preserving ms ->
+    forall (c1 c2 : cenv K), wt_cot dims c1 -> wt_cot dims c2 -> (forall x, rel (c1 x) (c2 x) (dims x)) ->
+    (forall x, rel (bwd dims ms c1 x) (bwd dims ms c2 x) (dims x)) /\
+    wt_cot dims (bwd dims ms c1) /\ wt_cot dims (bwd dims ms c2).
+  Proof.
+    intros Hs Hz. induction ms as [|m ms IH]; intros c1 c2 W1 W2 H; [auto|].
+    inversion Hs as [|? ? Hs1 Hs2]; inversion Hz as [|? ? Hz1 Hz2]; subst.
+    destruct (IH Hs2 Hz2 c1 c2 W1 W2 H) as [R [V1 V2]].
+    rewrite !bwd_cons. split; [|split]; try (apply bwd_mod_wt; assumption).
+    apply bwd_mod_rel; assumption.
+  Qed.
+
+  (* ------------------------------------------------------------------ networks of modules with memory *)
+  Variable M : Type.
+
+  (* shape-correct, and the adjoint sends zero seeds to zero (or None) results: for every memory and point *)
+  Definition h_shaped (h : hmod M) : Prop :=
+    forallb (wt_ref dims) (h_ins h) = true /\
+    (forall mu xs, map (@length K) (snd (h_resp h mu xs)) = map dims (h_outs h)) /\
+    (forall mu xs ys ws, shapes ws (map dims (h_outs h)) ->
+                         oshapes (h_sens h mu xs ys ws) (map (ref_dim dims) (h_ins h))) /\
+    (forall mu xs ys, Forall2 (fun d n => zeroish n d)
+                              (h_sens h mu xs ys (map (fun o => vzero (dims o)) (h_outs h)))
+                              (map (ref_dim dims) (h_ins h))).
+
+  Definition h_memless (h : hmod M) : Prop := exists f g, memoryless M h f g.
+
+  Lemma at_point_shaped st h mu : h_shaped h -> adj_shaped (at_point M st h mu) /\ zero_preserving (at_point M st h mu).
+  Proof.
+    intros [H1 [H2 [H3 H4]]]. split.
+    - split; [exact H1|]. intros ws Hws. simpl. apply H3. exact Hws.
+    - unfold zero_preserving. simpl. apply H4.
+  Qed.
+
+  Lemma at_points_shaped st mods : Forall h_shaped mods -> forall mems,
+    Forall adj_shaped (at_points M st mods mems) /\ Forall zero_preserving (at_points M st mods mems).
+  Proof.
+    induction 1 as [|h mods Hh _ IH]; intros mems; [split; constructor|].
+    destruct mems as [|mu mems]; [split; constructor|].
+    simpl. destruct (IH mems) as [A B]. destruct (at_point_shaped st h mu Hh) as [C D].
+    split; constructor; assumption.
+  Qed.
+
+  (* ---- wiring *)
+  Lemma written_shell mods : written (map (shell M) mods) = h_written M mods.
+  Proof. unfold written, h_written. induction mods as [|h mods IH]; [reflexivity|]. simpl. rewrite IH. reflexivity. Qed.
+
+  Lemma hwf_cons h mods : hwf M (h :: mods) = true ->
+    NoDup (h_outs h) /\ (forall x, In x (h_outs h) -> ~ In x (h_written M mods)) /\
+    (forall r, In r (h_ins h) -> ~ In (ref_sig r) (h_outs h) /\ ~ In (ref_sig r) (h_written M mods)) /\
+    hwf M mods = true.
+  Proof.
+    unfold hwf. simpl. intros H. apply (wf_net_cons dims) in H as [H1 [H2 [H3 H4]]].
+    rewrite written_shell in *. simpl in *. repeat split; auto.
+    - apply (H3 (ref_sig r)). unfold ins_sigs. simpl. apply in_map. assumption.
+    - apply (H3 (ref_sig r)). unfold ins_sigs. simpl. apply in_map. assumption.
+  Qed.
+
+  (* ---- the states after a response depend on the inputs of the network only *)
+  Definition resp_pure (h : hmod M) : Prop := forall mu mu' xs, snd (h_resp h mu xs) = snd (h_resp h mu' xs).
+
+  Lemma shaped_arity h : h_shaped h -> forall mu xs, length (snd (h_resp h mu xs)) = length (h_outs h).
+  Proof.
+    intros [_ [H2 _]] mu xs. rewrite <- (map_length (@length K)), H2. apply map_length.
+  Qed.
+
+  Lemma resp_states_inputs_only mods : hwf M mods = true -> Forall resp_pure mods -> Forall h_shaped mods ->
+    forall mems1 mems2 (st1 st2 : tenv K), length mems1 = length mods -> length mems2 = length mods ->
+    (forall x, ~ In x (h_written M mods) -> st1 x = st2 x) ->
+    forall x, snd (resp_all M mods mems1 st1) x = snd (resp_all M mods mems2 st2) x.
+  Proof.
+    induction mods as [|h mods IH]; intros Hwf Hp Hs mems1 mems2 st1 st2 L1 L2 Hag x.
+    - destruct mems1, mems2; simpl; apply Hag; intros [].
+    - destruct mems1 as [|m1 mems1]; [discriminate|]. destruct mems2 as [|m2 mems2]; [discriminate|].
+      apply hwf_cons in Hwf as [Hnd [Hdis [Hins Hwf]]].
+      inversion Hp as [|? ? Hp1 Hp2]; inversion Hs as [|? ? Hs1 Hs2]; subst.
+      simpl. apply IH; auto.
+      intros y Hy.
+      assert (Hxs : map (read_t st1) (h_ins h) = map (read_t st2) (h_ins h)).
+      { apply map_ext_in. intros r Hr. apply read_t_agree. apply Hag.
+        change (h_written M (h :: mods)) with (h_outs h ++ h_written M mods). rewrite in_app_iff.
+        destruct (Hins r Hr). tauto. }
+      rewrite Hxs, (Hp1 m1 m2). apply write_outs_agree.
+      rewrite (shaped_arity h Hs1), firstn_all.
+      destruct (in_dec Nat.eq_dec y (h_outs h)) as [Hi|Hi]; [right; exact Hi|].
+      left. apply Hag. change (h_written M (h :: mods)) with (h_outs h ++ h_written M mods). rewrite in_app_iff. tauto.
+  Qed.
+
+  Lemma write_outs_len outs : forall ys (st : tenv K), map (@length K) ys = map dims outs ->
+    forall s, (In s outs -> length (write_outs outs ys st s) = dims s) /\
+              (~ In s outs -> write_outs outs ys st s = st s).
+  Proof.
+    induction outs as [|o outs IH]; intros ys st Hs s.
+    - split; [intros [] | reflexivity].
+    - destruct ys as [|y ys]; [discriminate|]. simpl in Hs. injection Hs as E1 E2. simpl.
+      destruct (IH ys (upd st o y) E2 s) as [A B]. split.
+      + intros [->|Hin].
+        * destruct (in_dec Nat.eq_dec s outs) as [Hi|Hi]; [apply A; exact Hi|].
+          rewrite B by exact Hi. rewrite upd_same. exact E1.
+        * apply A. exact Hin.
+      + intros Hn. rewrite B by tauto. apply upd_other. intros ->. apply Hn. left. reflexivity.
+  Qed.
+
+  Lemma resp_all_len mods : Forall h_shaped mods -> forall mems (st : tenv K), length mems = length mods ->
+    length (fst (resp_all M mods mems st)) = length mods /\
+    forall s, (In s (h_written M mods) -> length (snd (resp_all M mods mems st) s) = dims s) /\
+              (~ In s (h_written M mods) -> snd (resp_all M mods mems st) s = st s).
+  Proof.
+    induction 1 as [|h mods Hh _ IH]; intros mems st L.
+    - destruct mems; [|discriminate]. simpl. split; [reflexivity|]. intros s. split; [intros [] | reflexivity].
+    - destruct mems as [|mu mems]; [discriminate|]. simpl.
+      set (r := h_resp h mu (map (read_t st) (h_ins h))).
+      destruct (IH mems (write_outs (h_outs h) (snd r) st)) as [A B]; [simpl in L; lia|].
+      split; [simpl; rewrite A; reflexivity|].
+      intros s. destruct (B s) as [B1 B2].
+      destruct Hh as [_ [H2 _]].
+      destruct (write_outs_len (h_outs h) (snd r) st (H2 mu _) s) as [C1 C2].
+      change (h_written M (h :: mods)) with (h_outs h ++ h_written M mods). rewrite in_app_iff. split.
+      + intros Hin. destruct (in_dec Nat.eq_dec s (h_written M mods)) as [Hi|Hi]; [apply B1; exact Hi|].
+        rewrite B2 by exact Hi. apply C1. tauto.
+      + intros Hn. rewrite B2 by tauto. apply C2. tauto.
+  Qed.
 End HistProofs.
